@@ -92,6 +92,23 @@ SameDoc(da, db) ==
   /\ da.w = db.w /\ da.h = db.h
   /\ da.style = db.style
 
+\* b = a, then (after any blank rows) a '# Legend:' line and anything whatsoever (C16: from that line on the input is
+\* never drawn).  a itself is legend-free.  Rows are compared as the drawing sees them (CR and trailing blanks removed).
+HeaderCps == <<35, 32, 76, 101, 103, 101, 110, 100, 58>>
+IsHeaderRow(row) == RStrip(StripCR(row)) = HeaderCps
+HasHeaderText(row) == \E j \in 1..(Len(row) - 8) : SubSeq(row, j, j + 8) = HeaderCps
+LegendAppended(a, b) ==
+  /\ \A i \in 1..Len(a) : ~HasHeaderText(a[i])
+  /\ \E L \in 1..Len(b) :
+        /\ IsHeaderRow(b[L])
+        /\ \A i \in 1..(L - 1) : ~HasHeaderText(b[i])
+        /\ CanonRows(SubSeq(b, 1, L - 1)) = CanonRows(a)
+\* ... and then the drawing is the drawing of a: same elements, same page
+SameDrawing(da, db) ==
+  /\ da.wf = 1 /\ db.wf = 1
+  /\ SameBag(da.elems, db.elems)
+  /\ da.w = db.w /\ da.h = db.h
+
 ------------------------------------------------------------------------
 (* C18 — settings switches and entry points.  ev.rel.kind says which relation to the base     *)
 (* event (the default conversion of the same input) is claimed.                              *)
